@@ -95,9 +95,13 @@ def run(ck, tier, seed):
         if vmo and vmo.get("kind") == "compile-error":
             if "redeclare" in vmo.get("msg", "") and langrun.static_redeclare(p):
                 continue      # rejected by both modes' front end: outside the domain
+            if vmo.get("msg", "").startswith("unsupported statement type") and any(s["s"] == "pset" for s, _ in langrun.walk_stmts(p["body"])):
+                # element and field assignment: the compiler says so and the server runs the module interpreted
+                vmo = None
+                ck.cov["served_by_interpreter_fallback"] = ck.cov.get("served_by_interpreter_fallback", 0) + 1
             # any other compile error makes the server fall back to the interpreter for the whole
             # module: the HTTP comparison below decides
-            if c["out"]["kind"] != "error":
+            if vmo is not None and c["out"]["kind"] != "error":
                 ck.mismatch("vm/compile-error/" + vmo.get("msg", "")[:40], {"src": c["src"], "what": vmo.get("msg")}, replay={"kind": "lang", "prog": p})
                 continue
         elif vmo is not None:
